@@ -361,6 +361,30 @@ def native_checks():
                 continue
             if got != exp:
                 fail("applicability-cid", "CID row 'D,%s,..' under format %s: accepted=%s, documented=%s" % (name, fmt, got, exp), text=text)
+    # numeric properties: a value is a number exactly if int() says so (nothing is cut off, nothing guessed)
+    num_texts = ["0", "1", " 2 ", "+1", "007", "1.5", "2x", "1 000", "1e3", "0x10", "2nd", "x", "-1", "-0", "\uff11", "1_0", "1,5", "2.", ".5",
+                 "\t3\n", "3 4", "--1", "1-", "one"]
+    for fmt, name, minimum in (("delimited", "header", 0), ("fixed", "header", 0), ("excel", "header", 0), ("ods", "header", 0),
+                               ("excel", "sheet", 1), ("ods", "sheet", 1)):
+        for t in num_texts:
+            n += 1
+            try:
+                exp_n = int(t)
+            except ValueError:
+                exp_n = None
+            if exp_n is not None and exp_n < minimum:
+                exp_n = None
+            df = data.DataFormat(fmt)
+            try:
+                df.set_property(name, t)
+                got = getattr(df, name)
+            except errors.InterfaceError:
+                got = None
+            except Exception as e:  # noqa
+                fail("numeric-property", "set_property(%r, %r) under %s raised %s: %s" % (name, t, fmt, type(e).__name__, e), name=name, value=t)
+                continue
+            if got != exp_n:
+                fail("numeric-property", "set_property(%r, %r) under %s -> %r, expected %r" % (name, t, fmt, got, exp_n), name=name, value=t)
     # a value means the same whether it is set directly or written in a CID row (values keep their case)
     mixed = [("delimited", "quote_character", "'"), ("delimited", "escape_character", "\\"), ("delimited", "encoding", "UTF-8"),
              ("delimited", "line_delimiter", "CRLF"), ("delimited", "item_delimiter", "X"), ("delimited", "item_delimiter", "'Q'"),
